@@ -76,6 +76,20 @@ def desc_sig(d):
         'none' if d['tyf'] == 'none' else ','.join(str(x) for x in sorted(d['tys'])))
 
 
+def cause_sig(d, f):
+    """the table shape and the one predicate that is to blame: stable across endpoints, zones and seeds"""
+    tbl = d['kind'] + ('/' + d['wrule'] if d['wrule'] else '') + ('/agg15' if d['agg15'] else '')
+    by_ts = d['kind'] == 'data' or (d['kind'] == 'both' and (d['tlo']['op'] != 'none' or d['thi']['op'] != 'none'))
+    side = f.get('side')
+    if side == 'ty' or f['why'] in ('other-signal', 'type-filter'):
+        return '%s|type=%s' % (tbl, 'none' if d['tyf'] == 'none' else ','.join(str(x) for x in sorted(d['tys'])))
+    if f['kind'] == 'leak' and by_ts:
+        if side == 'lo':
+            return '%s|tlo=%s:%s%s' % (tbl, d['tlo']['op'], d['tlo']['w'], '' if d['metric'] else ' (not a metric query)' if d['tlo']['w'] != 'none' else '')
+        return '%s|thi=%s:%s:%s%s' % (tbl, d['thi']['op'], d['thi']['w'], d['thi']['dir'], ' endIncl' if d['upIncl'] else '')
+    return '%s|%s=%s' % (tbl, 'dlo' if side == 'lo' else 'dhi', d['dlo'] if side == 'lo' else d['dhi'])
+
+
 def pick(labels, side, pref):
     for p in pref:
         if (side + p) in labels:
@@ -356,8 +370,9 @@ def run(tier):
                                                                     [desc_sig(by_id[d]) for d in sorted(dids)]))
             continue
         did = flagged[0]
-        key = (f['kind'], f['why'], did)
-        g = groups.setdefault(key, {'n': 0, 'endpoints': set(), 'zones': set(), 'roles': set(), 'example': None, 'visible': 0})
+        key = (f['kind'], f['why'], cause_sig(by_id[did], f))
+        g = groups.setdefault(key, {'n': 0, 'endpoints': set(), 'zones': set(), 'roles': set(), 'example': None, 'visible': 0, 'dids': set()})
+        g['dids'].add(did)
         g['n'] += 1
         g['endpoints'].add(f['endpoint'] + ('@' + f['cluster'] if f['cluster'] else ''))
         g['zones'].add('reader %s / writer %s' % (f['tz'], f['writer_tz']))
@@ -365,23 +380,27 @@ def run(tier):
         g['visible'] += 1 if f['visible_in_response'] else 0
         if g['example'] is None or (f['visible_in_response'] and not g['example']['visible_in_response']):
             g['example'] = f
+            g['example_did'] = did
     if gaps:
         raise vlib.Infra('the real endpoints leak / miss where TLC found the extracted descriptor safe (%d), first: %s' % (len(gaps), ' || '.join(gaps[:3])))
     viols = []
     confirmed = set()
-    for (kind, why, did), g in sorted(groups.items(), key=lambda kv: (kv[0][0], kv[0][1], desc_sig(by_id[kv[0][2]]))):
-        confirmed.add((did, kind))
+    for (kind, why, cause), g in sorted(groups.items()):
+        for did in g['dids']:
+            confirmed.add((did, kind))
+        did = g['example_did']
         d, ex = by_id[did], g['example']
-        sig = '%s|%s|%s' % (kind, why, desc_sig(d))
+        sig = '%s|%s|%s' % (kind, why, cause)
+        shapes = sorted(desc_sig(by_id[x]) for x in g['dids'])
         replay = vlib.save_replay('C13', re.sub(r'[^A-Za-z0-9]+', '_', sig)[:110], {
-            'kind': 'C13 %s observed on the real endpoint' % kind, 'descriptor': desc_sig(d), 'observations': g['n'], 'endpoints': sorted(g['endpoints']),
+            'kind': 'C13 %s observed on the real endpoint' % kind, 'cause': cause, 'descriptors': shapes, 'observations': g['n'], 'endpoints': sorted(g['endpoints']),
             'zones': sorted(g['zones']), 'example': ex, 'tlc_witnesses': cand.get((did, kind), [])[:5],
             'how': 'TZ=<example.tz> .bin/c13 -mode probe -in jobs.json -out out.json with jobs.json = [{"endpoint": example.endpoint, "cluster": '
                    'example.cluster, "start_ns": example.win.start_ns, "end_ns": example.win.end_ns, "writer_tz": example.writer_tz, '
                    '"extra_ts": [example.entity.ts_ns]}]: plants boundary rows, calls the real route, reports rows admitted per scan and the response'})
-        msg = ('%s (%s) by scans of shape [%s]: %d observations on %d endpoint/cluster pairs %s under %s; boundary rows %s; e.g. %s TZ=%s window [%d, %d]: %s '
+        msg = ('%s (%s), cause %s: %d observations on %d endpoint/cluster pairs %s under %s; scan shapes %s; boundary rows %s; e.g. %s TZ=%s window [%d, %d]: %s '
                '(row %s at %d, visible in the response: %s, evidence: %s); SQL: %.600s') % (
-            kind, why, desc_sig(d), g['n'], len(g['endpoints']), sorted(g['endpoints'])[:8], sorted(g['zones']), sorted(g['roles']), ex['endpoint'], ex['tz'],
+            kind, why, cause, g['n'], len(g['endpoints']), sorted(g['endpoints'])[:10], sorted(g['zones']), shapes[:4], sorted(g['roles']), ex['endpoint'], ex['tz'],
             ex['win']['start_ns'], ex['win']['end_ns'], ex['detail'], ex['entity']['role'], ex['entity']['ts_ns'], ex['visible_in_response'], ex['evidence'],
             re.sub(r'\s+', ' ', ex['sql']))
         viols.append({'property': 'C13', 'signature': sig, 'msg': msg, 'replay': replay})
